@@ -91,6 +91,42 @@ def fmtOut (op : Operation) : Out → String
 def fmtOuts (op : Operation) (l : List Out) : String :=
   if l.isEmpty then "-" else " | ".intercalate (l.map (fmtOut op))
 
+/-- the triples of the items in an implementation answer (`ok ep cl leaf …`), one entry per output -/
+def parseOuts (out : String) : List (Option (Nat × Nat × Nat)) :=
+  if out = "-" then [] else
+  (out.splitOn " | ").map fun o =>
+    match words o with
+    | "ok" :: e :: c :: l :: _ =>
+      match e.toNat?, c.toNat?, l.toNat? with
+      | some e, some c, some l => some (e, c, l)
+      | _, _, _ => none
+    | _ => none
+
+/-- `node_swap_safe` evaluated on the implementation's answer; `nodes[i]` is what call `i` saw -/
+def swapOracle (ctx : Ctx) (op : Operation) (sched : List Node) (paths : List Path) (out : String) : Option String :=
+  let outs := parseOuts out
+  let nodeAt (i : Nat) : Node := (sched[i]?).getD (sched.getLast?.getD [])
+  -- clause 1 (any request): every item is permitted on the node of its call
+  let bad1 := (List.range outs.length).filter fun i =>
+    match outs[i]? with
+    | some (some (e, c, l)) => !(itemPermittedOn ctx op (nodeAt i) paths e c l)
+    | _ => false
+  if !bad1.isEmpty then some s!"item of call {bad1.head!} not permitted on its node" else
+  match paths with
+  | [p] =>
+    if isWildcard p && (op == .read || (p.cluster.isSome && p.leaf.isSome)) then
+      let triples := outs.filterMap id
+      -- clause 2: no leaf twice
+      if !(decide triples.Nodup) then some "leaf yielded twice" else
+      -- clause 3: the compositions seen are those of calls 0 .. |outs| (the last call returns None)
+      let seen := (List.range (outs.length + 1)).map nodeAt
+      let owed := owedThroughout ctx op seen p
+      match owed.find? (fun t => !(triples.contains t)) with
+      | some t => some s!"owed leaf {t.1}/{t.2.1}/{t.2.2} of an endpoint present throughout not yielded"
+      | none => none
+    else none
+  | _ => none
+
 def FUEL : Nat := 100000
 
 def step (st : St) (line : String) : St × String :=
@@ -131,6 +167,33 @@ def step (st : St) (line : String) : St × String :=
       else if inScope && spec ≠ out then (st, s!"ORA spec=[{spec}]")
       else if model = out then (st, "ok") else (st, s!"DIS {model}")
     | _, _, _, _, _, _ => (st, "BAD x")
+  | "sw" :: kind :: fab :: mode :: aux :: id :: cats :: timed :: excl :: paths :: specs =>
+    let op : Operation := if kind = "r" then .read else if kind = "w" then .write else .invoke
+    match fab.toNat?, Driver.C05.modeOf mode, id.toNat?, Driver.C05.natList cats,
+        (if excl = "-" then some [] else (excl.splitOn ",").mapM parseTriple),
+        (((paths.splitOn ";").filter (fun s => s ≠ "" ∧ s ≠ "-")).mapM parsePath),
+        specs.mapM parseNode with
+    | some fab, some mode, some id, some cats, some excl, some paths, some sched =>
+      if sched.isEmpty then (st, "BAD sw") else
+      let subj := cats.foldl addCatid (subjectsNew id)
+      let acc : Accessor := { fabIdx := fab, auxAclEnabled := aux = "1", subjects := subj, authMode := mode }
+      let excl := if op = .read then excl else []
+      let ctx : Ctx := { fabrics := st.acl.fabrics, accessor := acc, timed := (op ≠ .read) && timed = "1",
+                         filter := fun e c l => !(excl.contains (e, c, l)) }
+      let last := sched.getLast?.getD []
+      let allSorted := sched.all fun n => decide ((n.map (·.id)).Pairwise (· < ·))
+      -- once the schedule is over the node is fixed: `expand_terminates` bounds the rest
+      let tail := if allSorted then fuelBound op last paths else 2000
+      let model := fmtOuts op (runSwap ctx op (sched ++ List.replicate tail last) { items := paths })
+      let inScope := sched.all nodeWF && stableNodes sched &&
+        st.acl.fabrics.all (fun f => f.acl.all (fun e => Driver.C05.canonicalPriv e.privilege))
+      if out.startsWith "panic" && !allSorted then (st, "ok")
+      else if out.startsWith "panic" ∨ (out.splitOn "HANG").length > 1 then (st, s!"ORA {out}")
+      else
+        match (if inScope then swapOracle ctx op sched paths out else none) with
+        | some why => (st, s!"ORA {why}")
+        | none => if model = out then (st, "ok") else (st, s!"DIS {model}")
+    | _, _, _, _, _, _, _ => (st, "BAD sw")
   | _ =>
     let (a, o) := Driver.C05.step st.acl line
     ({ st with acl := a }, o)
